@@ -326,7 +326,12 @@ Section Driver.
   (* direct writes of the public maps `Network.loopbacks` / `Network.connect` between calls *)
   | SSetLoops (l : list (nat * (nat * nat * bool)))
   | SSetConnect (l : list (nat * nat))
-  | SSetActivation (i : nat) (a : activation).
+  | SSetActivation (i : nat) (a : activation)
+  (* reconfiguration between calls: set_optimizer (state sized and zero-filled anew), set_objective,
+     set_accumulation *)
+  | SSetOptimizer (o : optimizer NF)
+  | SSetObjective (ob : objective) (cl : option (T * T))
+  | SSetAccumulation (skip loop : accumulation).
 
   Definition psop : parser sop :=
     let* k := tok in
@@ -342,6 +347,9 @@ Section Driver.
                              pret (o, (i, k, s))) in pret (SSetLoops l)
     | 14 => let* l := plist ppair in pret (SSetConnect l)
     | 15 => let* i := pnat in let* a := pact in pret (SSetActivation i a)
+    | 16 => let* o := poptimizer in pret (SSetOptimizer o)
+    | 17 => let* ob := pobj in let* cl := pclamp in pret (SSetObjective ob cl)
+    | 18 => let* sa := pacc in let* la := pacc in pret (SSetAccumulation sa la)
     | _ => pfail
     end.
 
@@ -374,6 +382,9 @@ Section Driver.
     | SSetLoops l :: rest => run_script (set_loopbacks n l) rest
     | SSetConnect l :: rest => run_script (set_connect n l) rest
     | SSetActivation i a :: rest => do n' <- set_activation n i a; run_script n' rest
+    | SSetOptimizer o :: rest => do n' <- set_optimizer n o; run_script n' rest
+    | SSetObjective ob cl :: rest => run_script (set_objective n ob cl) rest
+    | SSetAccumulation sa la :: rest => run_script (set_accumulation n sa la) rest
     end.
 
   Definition run_net_cmd (n : network NF) : parser (list Z) :=
